@@ -20,7 +20,9 @@ RULE = ("one case = one estimator fitted ONCE by the real code, then applied to 
         "panel, parameters at and around the acceptance boundary); kind=learned: every other "
         "runnable panel transformer / classifier / regressor on generated sine+noise problems "
         "(12-24 time points, 1-3 variables, 2-3 classes, column names var_i / dim_i, configurations "
-        "drawn per case); in addition the build regenerates the row-flow table of all 52 apply-time "
+        "drawn per case), plus for the dictionary-based estimators a 'same vocabulary, different "
+        "proportions' family (series made of slow / fast sine segments in different proportions and "
+        "orders: bags with the same words and different counts); in addition the build regenerates the row-flow table of all 52 apply-time "
         "methods (Gen.v) and checks it in Coq. non-trivial = the batch was accepted, has >= 2 pairwise different output "
         "rows and at least one non-identity permutation was run; distinct = distinct canonical JSON case")
 TRUSTED = [
@@ -307,6 +309,40 @@ def _gen_learned(rng, est):
     return c
 
 
+MOTIF_ESTS = ["iboss"] * 8 + ["boss"] * 3 + ["cboss"] * 3 + ["itde"] * 3 + ["sax", "sax", "sfa", "sfa",
+                                                                          "muse"]
+
+
+def _gen_motif(rng, est):
+    """same vocabulary, different proportions: every series is made of the same two shapes (a slow
+    and a fast sine period of 10 points) in different proportions / orders, so that the bags of
+    different instances hold the same words with different counts - sensitive to bag-level caching
+    or de-duplication keyed on the set of words"""
+    c = _gen_learned(rng, est)
+    segs = rng.choice([6, 8])
+    c.update(data="motif", segs=segs, m=10 * segs, ncols=1, k=2, round=None,
+             n_train=rng.choice([6, 8]), n_test=rng.choice([4, 5, 6]), dup=rng.random() < 0.3,
+             noise=rng.choice([0.0, 0.0, 0.01]))
+    if est == "iboss":
+        c["cfg"] = rng.choice([{"window_size": 10, "word_length": 8, "norm": False},
+                               {"window_size": 10, "word_length": 2, "norm": False},
+                               {"window_size": 10, "word_length": 4, "norm": rng.random() < 0.5},
+                               {"window_size": 20, "word_length": 4, "norm": False}])
+    elif est == "itde":
+        c["cfg"] = {"window_size": 10, "word_length": rng.choice([2, 4]), "norm": False, "levels": 1}
+    elif est == "sax":
+        c["cfg"] = {"word_length": rng.choice([2, 4]), "alphabet_size": rng.choice([3, 4]),
+                    "window_size": 10}
+    elif est == "sfa":
+        c["cfg"] = {"word_length": rng.choice([2, 4]), "alphabet_size": 4, "window_size": 10,
+                    "norm": False, "remove_repeat_words": False, "bigrams": False,
+                    "pandas": rng.random() < 0.3}
+    elif est == "boss":
+        c["cfg"] = {"max_ensemble_size": rng.choice([2, 3])}
+    c["perms"], c["sub"] = _variants(rng, c["n_test"])
+    return c
+
+
 def _expected_methods():
     """the pinned list of coq/C16/Bridge.v (expected_translated)"""
     import os
@@ -358,6 +394,9 @@ def gen_cases(rng, tier):
     for est in LEARNED_T + LEARNED_C + LEARNED_R:
         for _ in range((3 if est in slow else 7) * mult):
             cases.append(_gen_learned(rng, est))
+    for _ in range(mult):
+        for est in MOTIF_ESTS:
+            cases.append(_gen_motif(rng, est))
     return cases
 
 
@@ -462,8 +501,27 @@ def _problem(case):
         return cols
     ctr = [i % k for i in range(case["n_train"])]
     cte = [int(r.randint(0, k)) for _ in range(case["n_test"])]
-    tr = [inst(c) for c in ctr]
-    te = [inst(c) for c in cte]
+    if case.get("data") == "motif":
+        S = case["segs"]
+        tt = np.arange(10)
+        slow, fast = np.sin(2 * np.pi * tt / 10), np.sin(2 * np.pi * tt / 5)
+
+        def motif(n_slow, slow_first):
+            parts = [slow] * n_slow + [fast] * (S - n_slow)
+            if not slow_first:
+                parts = parts[::-1]
+            v = np.concatenate(parts) + case["noise"] * r.normal(size=10 * S)
+            return [[float(x) for x in v]]
+        # class 0: mostly slow, class 1: mostly fast; the test panel mixes all proportions
+        tr = [motif(int(r.randint(S // 2 + 1, S)) if c == 0 else int(r.randint(1, S // 2)), True)
+              for c in ctr]
+        props = list(range(1, S))
+        r.shuffle(props)
+        te = [motif(int(props[j % len(props)]), bool(r.randint(0, 2)))
+              for j in range(case["n_test"])]
+    else:
+        tr = [inst(c) for c in ctr]
+        te = [inst(c) for c in cte]
     if case.get("dup") and len(te) >= 2:
         te[-1] = [list(s) for s in te[0]]
     ytr = np.array(ctr)
